@@ -160,7 +160,11 @@ func zzH15_unquote_hex() {
 	digs := zzBytes("d", nd)
 	anyPos := -1
 	if form != 3 {
-		anyPos = []int{-1, nd - 1, 0}[zzChoice("anypos", zzParam("anypos", 2, 3))]
+		nany := zzParam("anypos", 1, 3)
+		if form == 0 && nany < 2 {
+			nany = 2 // quick: the arbitrary character only in the \\x form
+		}
+		anyPos = []int{-1, nd - 1, 0}[zzChoice("anypos", nany)]
 	}
 	upper := zzParam("uppercase", 0, 1) == 1
 	for i := 0; i < nd; i++ {
